@@ -127,13 +127,17 @@ func (r *run) wireCheck(sc *scenario, ad *schema.Advertisement, direct verdict) 
 	case !obsB.same(direct):
 		return fmt.Sprintf("BytesToAdvertisement + VerifySignature gives %s, on the value itself %s", obsB, direct)
 	}
-	// tampering shows on the wire: a mutated advertisement must not have the bytes of the signed one
-	if sc.Mut.Kind != "" {
+	// Tampering shows on the wire (theorem wire_tamper_detected): when the advertisement
+	// as signed is ACCEPTED and the mutated one is rejected, the two cannot have the same
+	// DAG-CBOR bytes.  Nothing is demanded when the reference is itself rejected (e.g. an
+	// entry sealed by a foreign key) or when the mutation changed nothing that is signed
+	// (re-signing with the same deterministic key reproduces the bytes, and the verdict).
+	if sc.Mut.Kind != "" && direct.Kind != "ok" {
 		base := *sc
 		base.Mut = mutation{Ep: -1}
-		if b0 := build(&base); b0.signErr == nil && b0.rtErr == nil {
-			if blk0, _, err := throughLinkSystem(b0.ad, cid.DagCBOR); err == nil && bytes.Equal(blk0, block) && direct.Kind != "ok" {
-				return "a rejected, tampered advertisement has the same DAG-CBOR bytes as the signed one"
+		if b0 := build(&base); b0.signErr == nil && b0.rtErr == nil && verifyReal(b0.ad).Kind == "ok" {
+			if blk0, _, err := throughLinkSystem(b0.ad, cid.DagCBOR); err == nil && bytes.Equal(blk0, block) {
+				return "an accepted advertisement and a rejected, tampered one have the same DAG-CBOR bytes"
 			}
 		}
 	}
